@@ -653,7 +653,7 @@ def real_other_session_id():
 from harness.core import cfg_text  # noqa: E402
 
 TOGGLES = {"GssHonoursCallback": True, "BlobOmits": "", "KeepsResultAfterBadSig": False, "KeepsResultOnForeignLabel": False,
-           "RekeyResetsAuthState": False,
+           "RekeyResetsAuthState": False, "PkOkCachesApproval": False,
            "ProbeAuthenticates": False, "PinsUser": True, "PartialCounts": False, "CapOffset": 0}
 ALL_CONFIGS = {"plain", "gss", "gss+ctx", "gss+bound", "gss+ctx+bound"}
 INVS = ["GrantNeedsApproval", "OneUser", "CapRespected"]
@@ -687,7 +687,7 @@ def model_check_and_generate(c, k, name):
     plus the message alphabet"""
     r = c.mc_holds("ServerAuth_Gen", mc_cfg(k, emit=True, spec="GSpec"), name=name, workers=1, env=JVM)
     wits = [{"cfg": w[1], "failCount": w[2], "authenticated": w[3], "alive": w[4], "mode": w[5], "expect": w[6],
-             "hist": [dict(zip(ENC, q)) for q in w[7]]} for w in r.printed("WIT")]
+             "offer": w[7], "hist": [dict(zip(ENC, q)) for q in w[8]]} for w in r.printed("WIT")]
     # (states just beyond the depth bound are printed too - every time they are generated - and discarded by TLC)
     uniq = {}
     for w in wits:
@@ -804,7 +804,7 @@ def replay_jobs(rnd, wits, msgs, n, pair_weight, must, tag):
     pair_weight(w, m): sampling weight of the others (n of them, seeded)"""
     classes = {}
     for w in sorted(wits, key=lambda w: (len(w["hist"]), repr(w["hist"]))):
-        classes.setdefault((w["cfg"], w["mode"], w["expect"], w["authenticated"], w["alive"]), w)
+        classes.setdefault((w["cfg"], w["mode"], w["expect"], w["offer"], w["authenticated"], w["alive"]), w)
     pairs = [(w, m) for w in classes.values() for m in msgs if must(w, m)]
     allp = [(w, m) for w in wits for m in msgs]
     wts = [max(0.0, pair_weight(w, m)) for w, m in allp]
